@@ -85,9 +85,23 @@ def run(F, rep):
     def label_quals(sw):
         return ''.join(c.get('c', [{}])[0].get('q', '') for c in walk(sw) if c.get('k') == 'Case')
     eq = [s for s in sws if 'mType' in render(role(s, 'cond')) and 'AnalyserInternalEquation' in label_quals(s) and _switch_rows(s, 'type')[0]]
-    if len(eq) != 1:
-        raise AnalysisBroken('analyseModel: switch mapping the internal equation type vanished (%d)' % len(eq))
-    rows, dangling = _switch_rows(eq[0], 'type')
+    if len(eq) == 1:
+        rows, dangling = _switch_rows(eq[0], 'type')
+    else:
+        # table-driven form: a map from the internal to the public type, looked up with find(...mType); a key that is not found is skipped
+        rows = None
+        for v in am.walk():
+            if v.get('k') == 'Var' and 'map<libcellml::AnalyserInternalEquation::Type, libcellml::AnalyserEquation::Type>' in (v.get('t') or ''):
+                pairs = [p_ for p_ in walk(v) if p_.get('k') in ('Construct', 'InitList') and len(p_.get('c', [])) == 2 and all(x.get('k') == 'Ref' and x.get('dk') == 'enumc' for x in p_['c'])]
+                finds = [c for c in am.walk() if c.get('k') == 'Call' and c.get('fn') == 'find' and c.get('c') and c['c'][0].get('k') == 'Ref' and c['c'][0].get('d') == v['d']
+                         and any(m.get('k') == 'Member' and m.get('q') == 'libcellml::AnalyserInternalEquation::mType' for m in walk(c))]
+                skips = [i_ for i_ in am.walk() if i_.get('k') == 'If' and '.end()' in render(role(i_, 'cond')) and v['n'] in render(role(i_, 'cond')) and '==' in render(role(i_, 'cond'))
+                         and any(x.get('k') == 'Continue' for x in walk(role(i_, 'then') or {}))]
+                if pairs and len(finds) == 1 and skips:
+                    rows = {p_['c'][0]['n']: p_['c'][1]['n'] for p_ in pairs if 'AnalyserInternalEquation' in p_['c'][0].get('q', '')}
+                    eq = [v]
+        if not rows:
+            raise AnalysisBroken('analyseModel: switch (or looked-up table) mapping the internal equation type vanished (%d)' % len(eq))
     for t in ie_types:
         if t == 'UNKNOWN':
             rep.check(t not in rows, 'C05.T2', 'skip|UNKNOWN', am.where(eq[0]), 'UNKNOWN equations are published as %s' % rows.get(t), 'skipped by the default')
